@@ -136,6 +136,12 @@ func allSpecs() []*HarnessSpec {
 			Quick:    []Grid{{"n": {1}, "lens": rng(0, 3)}, {"n": {2}, "lens": rng(0, 15)}, {"n": {3}, "lens": rng(0, 63)}, {"n": {4}, "lens": step(0, 255, 1)}},
 			Thorough: []Grid{{"n": {1}, "lens": rng(0, 3)}, {"n": {2}, "lens": rng(0, 15)}, {"n": {3}, "lens": rng(0, 63)}, {"n": {4}, "lens": rng(0, 255)}, {"n": {5}, "lens": rng(0, 1023)}},
 			Note:     "A16: newVLenArray/VLenArray.get for every combination of element lengths 0..3 (up to 4 elements) with symbolic contents"},
+		{Name: "k_vlen", Pkg: "trie", Property: "C02", Witness: 1,
+			Quick: []Grid{{"n": {3}, "lens": rng(0, 63)}, {"n": {4}, "lens": step(0, 255, 1)}},
+			Note:  "A16 (RangeGet reads leaf values through VLenArray.get)"},
+		{Name: "k_vlen", Pkg: "trie", Property: "C10", Witness: 1,
+			Quick: []Grid{{"n": {3}, "lens": rng(0, 63)}, {"n": {4}, "lens": step(0, 255, 1)}},
+			Note:  "A16 (a hit carries a supplied value: every lookup reads it through VLenArray.get)"},
 		{Name: "k_vlen", Pkg: "trie", Property: "C04", Witness: 1,
 			Quick: []Grid{{"n": {3}, "lens": rng(0, 63)}},
 			Note:  "A16 (scans read values through VLenArray.get)"},
@@ -152,7 +158,7 @@ func allSpecs() []*HarnessSpec {
 				{"n": {3}, "L": {1}, "lens": rng(0, 7), "opt": {16}}},
 			Thorough: []Grid{{"n": {2}, "L": {3}, "lens": rng(0, 15), "opt": optsDistinct},
 				{"n": {3}, "L": {2}, "lens": rng(0, 26), "opt": {16, 9, 0}},
-				{"n": {4}, "L": {1}, "lens": rng(0, 15), "opt": {16}}},
+				{"n": {4}, "L": {1}, "lens": rng(0, 14), "opt": {16}}}, // lens=15 (four 1-byte keys) did not finish in 900 s
 			Note: "symbolic keys WITHOUT the ascending assumption: rejected with ErrKeyOutOfOrder and a nil trie iff some neighbours are not strictly ascending; accepted lists answer RangeGet for every key"},
 		{Name: "l3_order_deep", Pkg: "trie", Property: "C08", Witness: 1,
 			Quick:    []Grid{{"pos": {0, 31, 62}}},
@@ -259,6 +265,15 @@ func apiSpecs() []*HarnessSpec {
 			q2 = append(q2, Grid{"n": {3}, "L": {1}, "lens": {7}, "opt": {16}, "enc": {2}, "check": {p.check}, "lq": {0}, "cv": {-1}, "vl": {2}})
 			t2 = append(t2, Grid{"n": {3}, "L": {1}, "lens": rng(0, 7), "opt": p.small, "enc": {2}, "check": {p.check}, "lq": {0}, "cv": {-1}, "vl": {2, 3}})
 		}
+		if p.check == 1 || p.check == 10 {
+			// values behind a reflection-driven *TypeEncoder over a struct
+			lq := []int{0}
+			if p.check == 10 {
+				lq = []int{1}
+			}
+			q2 = append(q2, Grid{"n": {1, 2}, "L": {1}, "lens": rng(0, 3), "opt": {16, 9, 0}, "enc": {7}, "check": {p.check}, "lq": lq, "cv": {-1}})
+			t2 = append(t2, Grid{"n": {1, 2}, "L": {2}, "lens": rng(0, 8), "opt": p.small, "enc": {7}, "check": {p.check}, "lq": lq, "cv": {-1}})
+		}
 		out = append(out, &HarnessSpec{Name: "l2_api", Pkg: "trie", Property: p.prop, Witness: 1,
 			Quick:    q2,
 			Thorough: t2,
@@ -278,9 +293,27 @@ func apiSpecs() []*HarnessSpec {
 			swQ = append(step(100, 150, 5), aligned...)
 			lqS = []int{1}
 		}
+		q3 := []Grid{l3Grid(p.check, skQ, p.small[:2], enc3, []int{0, 2}, lq3Q), l3Grid(p.check, swQ, p.small[:2], enc3, []int{0, 3}, lqS)}
+		t3 := []Grid{l3Grid(p.check, skT, p.opts, p.encs, []int{0, 1, 2, 3}, lq3T), l3Grid(p.check, swT, p.small, enc3, []int{0, 1, 3}, append(lqS, 2))}
+		if p.check != 14 && p.check != 18 {
+			// tiny concrete key sets with symbolic String16 values of symbolic lengths 0..vl
+			// (variable-width leaf packing: width sums that coincide, empty values, de-duplication)
+			so := []int{16, 0}
+			if p.check == 3 {
+				so = []int{9, 8}
+			}
+			q3 = append(q3, Grid{"skel": {20, 21, 22}, "opt": so, "enc": {2}, "runs": {0}, "check": {p.check}, "lq": lqS, "symv": {1}, "vl": {2}},
+				Grid{"skel": {20}, "opt": so[:1], "enc": {2}, "runs": {0}, "check": {p.check}, "lq": lqS, "symv": {1}, "vl": {4}})
+			t3 = append(t3, Grid{"skel": {20, 21, 22}, "opt": p.small, "enc": {2}, "runs": {0}, "check": {p.check}, "lq": lqS, "symv": {1}, "vl": {2, 3}},
+				Grid{"skel": {20}, "opt": so, "enc": {2}, "runs": {0}, "check": {p.check}, "lq": lqS, "symv": {1}, "vl": {4, 5}})
+		}
+		// a second, unrelated trie is built while the first is alive
+		og := l3Grid(p.check, []int{0, 2, 105}, p.small[:1], enc3, []int{0}, lqS)
+		og["other"] = []int{1, 2}
+		q3 = append(q3, og)
 		out = append(out, &HarnessSpec{Name: "l3_api", Pkg: "trie", Property: p.prop, Witness: 1,
-			Quick:    []Grid{l3Grid(p.check, skQ, p.small[:2], enc3, []int{0, 2}, lq3Q), l3Grid(p.check, swQ, p.small[:2], enc3, []int{0, 3}, lqS)},
-			Thorough: []Grid{l3Grid(p.check, skT, p.opts, p.encs, []int{0, 1, 2, 3}, lq3T), l3Grid(p.check, swT, p.small, enc3, []int{0, 1, 3}, append(lqS, 2))},
+			Quick:    q3,
+			Thorough: t3,
 			Note:     "L3 (concrete skeleton key sets, symbolic query): " + p.note})
 	}
 	// ---- C04 scans ----
@@ -367,7 +400,7 @@ func apiSpecs() []*HarnessSpec {
 	out = append(out, &HarnessSpec{Name: "l2_reuse14", Pkg: "trie", Property: "C14", Witness: 1,
 		Quick: []Grid{{"L": {1}, "enc": {3, 4, 5, 6}, "na": {1, 2}, "lensa": {1, 3}, "opta": {16}, "nb": {1, 2}, "lensb": {1, 3}, "optb": {16}, "lq": {1}, "viaload": {0, 1}},
 			{"L": {1}, "enc": {5}, "na": {2}, "lensa": {3}, "opta": {9, 0}, "nb": {2}, "lensb": {3}, "optb": {9, 2}, "lq": {1}, "viaload": {0}}},
-		Thorough: []Grid{{"L": {2}, "enc": {3, 4, 5, 6}, "na": {1, 2}, "lensa": rng(0, 8), "opta": {16, 9}, "nb": {1, 2}, "lensb": rng(0, 8), "optb": {16, 9}, "lq": {1, 2}, "viaload": {0, 1}}},
+		Thorough: []Grid{{"L": {2}, "enc": {3, 4, 5, 6}, "na": {2}, "lensa": {4, 8}, "opta": {16, 9}, "nb": {1, 2}, "lensb": rng(0, 8), "optb": {16, 9}, "lq": {2}, "viaload": {0, 1}}},
 		Note: "typed getters agree with Get on an instance that already answered typed and untyped queries for data A and was then loaded with data B by a direct Unmarshal (no Reset)"})
 	out = append(out, &HarnessSpec{Name: "l2_legacy0509", Pkg: "trie", Property: "C18", Witness: 1,
 		Quick: []Grid{{"n": {0, 1}, "L": {2}, "lens": {0, 1, 2}, "variant": {0, 1}, "hdr": {0, 2}},
@@ -383,7 +416,7 @@ func apiSpecs() []*HarnessSpec {
 	// ---- C07 ----
 	out = append(out, &HarnessSpec{Name: "ver_gate", Pkg: "trie", Property: "C07", Witness: 2,
 		Quick:    []Grid{{"lv": rng(0, 6)}, {"pre": {1, 2, 3, 4, 5}, "lv": {1, 2, 3, 4}, "opt": {16, 9}}},
-		Thorough: []Grid{{"lv": rng(0, 9)}, {"lv": {16}}, {"pre": {1, 2, 3, 4, 5}, "lv": rng(1, 7), "opt": {16, 9, 2}}, {"pre": {5}, "lv": {10}}},
+		Thorough: []Grid{{"lv": rng(0, 9)}, {"pre": {1, 2, 3, 4, 5}, "lv": rng(1, 5), "opt": {16, 9, 2}}}, // lv=16, pre+lv=13: not finished in 900 s
 		Note:     "the version bytes of the header are symbolic (every string of the listed lengths): real ReadHeader/verStr/vers.IsCompatible/semver.Parse on the symbolic string; not rejected with ErrIncompatible => one of the six compatible versions (+build metadata)"})
 	out = append(out, &HarnessSpec{Name: "trunc", Pkg: "trie", Property: "C07", Witness: 1,
 		Quick:    []Grid{{"layout": {0, 1}, "opt": {16, 9}, "sec": {0}, "cut": rng(-6, 40)}, {"layout": {3, 4}, "opt": {16}, "sec": {0, 1, 2}, "cut": rng(-6, 40)}},
@@ -423,15 +456,17 @@ func apiSpecs() []*HarnessSpec {
 	out = append(out, &HarnessSpec{Name: "ix_exact", Pkg: "index", Property: "C12", Witness: 1,
 		Quick: []Grid{{"n": {0, 1}, "L": {2}, "lens": {0, 1, 2}, "mode": {0, 1}, "lq": {0, 1, 2, 3}},
 			{"n": {2}, "L": {2}, "lens": rng(0, 8), "mode": {0, 1}, "lq": {1, 3}},
-			{"n": {3}, "L": {1}, "lens": rng(0, 7), "mode": {0, 1}, "lq": {2}}},
+			{"n": {3}, "L": {1}, "lens": rng(0, 7), "mode": {0, 1}, "lq": {2}},
+			{"n": {2}, "L": {2}, "lens": rng(0, 8), "mode": {0, 1}, "lq": {2}, "other": {2}}},
 		Thorough: []Grid{{"n": {0, 1}, "L": {3}, "lens": {0, 1, 2, 3}, "mode": {0, 1}, "lq": {0, 1, 2, 3, 4}},
+			{"n": {2, 3}, "L": {2}, "lens": rng(0, 8), "mode": {0, 1}, "lq": {2}, "other": {1, 2, 3}},
 			{"n": {2}, "L": {2}, "lens": rng(0, 8), "mode": {0, 1}, "lq": {0, 1, 2, 3, 4}},
 			{"n": {3}, "L": {2}, "lens": rng(0, 26), "mode": {0, 1}, "lq": {1, 2, 3}},
 			{"n": {4}, "L": {1}, "lens": rng(0, 15), "mode": {0, 1}, "lq": {2}}},
 		Note: "symbolic records (key, int64 offset): strictly increasing offsets with Get, non-decreasing block offsets (arbitrary block structure as models of the symbolic offsets) with RangeGet; a key-verifying reader; found exactly for indexed keys with the stored record, for an arbitrary symbolic query"})
 	out = append(out, &HarnessSpec{Name: "ix_skel", Pkg: "index", Property: "C12", Witness: 1,
-		Quick:    []Grid{{"keys": {7, 105, 120, 154, 194, 342}, "bs": {1, 3, 64}, "lq": {1}}},
-		Thorough: []Grid{{"keys": append([]int{7, 154, 194, 342, 623}, step(105, 400, 15)...), "bs": {1, 2, 3, 7, 64}, "lq": {1, 2}}},
+		Quick:    []Grid{{"keys": {7, 105, 120, 154, 194, 342}, "bs": {1, 3, 64}, "lq": {1}}, {"keys": {7, 105, 154}, "bs": {1, 3}, "lq": {1}, "other": {1, 2, 3}}},
+		Thorough: []Grid{{"keys": append([]int{7, 154, 194, 342, 623}, step(105, 400, 15)...), "bs": {1, 2, 3, 7, 64}, "lq": {1, 2}}, {"keys": {7, 105, 120, 154, 194, 342}, "bs": {1, 3, 64}, "lq": {1}, "other": {1, 2, 3}}},
 		Note:     "L3: concrete key sets (257-bit root, 64-aligned bitmap lengths / leaf counts / inner-node counts, sweeps) with block sizes 1..64: every indexed key returns its record; a symbolic query is found exactly when indexed"})
 	// ---- C16 ----
 	out = append(out, &HarnessSpec{Name: "arr_map", Pkg: "array", Property: "C16", Witness: 1,
